@@ -5,9 +5,12 @@ import Proofs.AskMembership
 
 Property theorems only; the model is `Model/Ask.lean`, the lemmas are in `Proofs/Ask.lean`.
 
-Setting of the theorems.  `run ops c₀ rounds` is the search loop of `Search._search` on the
-`CBO` layer: each `Round` is `ask(n)` followed by `tell(results)` (any `n`, any results — numbers,
-failures, anything else — about any configurations).  Everything the surrogate model, the
+Setting of the theorems.  `runOps ops c₀ calls` is **any sequence of calls of the public
+ask/tell interface** on the `CBO` layer, in any order: `ask(n)` (any `n`) and `tell(results)` (any
+results — numbers, failures, anything else — about any configurations); the search loop
+`Search._search` (ask, tell, ask, tell, …) is the special case `run`.  Asking again before any
+tell is covered: `CBO._ask` then refreshes the optimizer first (`update_next`, fix of round 2 —
+on the pinned tree the same configurations came back).  Everything the surrogate model, the
 acquisition function and the random generators decide is in the rounds' environments and is
 universally quantified: the candidate lists `Space.rvs` returned, the argmin indices, the
 vectors lbfgs/ga ended on (`Pick.free`, arbitrary), the argsorts per kappa.  `c₀` is any freshly
@@ -15,15 +18,14 @@ set-up CBO optimizer with `filter_duplicated=True`, the random initial design (n
 initial points), any `n_initial_points`, any surrogate (`dummy` or not), any failure policy
 (`ignoreFailures`), and a multi-point strategy among `cl_min, cl_mean, cl_max, qUCB, qUCBd`.
 
-Contracts of the environment (`RoundRT`):
+Contracts of the environment (`OpRT`):
 * `FitRT.rt` — for every sampled candidate `c`, transforming it and coming back (clip,
   `inverse_transform`, `deactivate_inactive_dimensions`) gives `c` itself.  This is exact for
   categorical / ordinal / integer dimensions (label, one-hot, identity transformers); it is
   property C09's subject and is re-checked on every run by the correspondence harness (the
   proposal must *be* one of the filtered candidates).
-* `OrdersCover` — the argsort of the acquisition values mentions every candidate index (it is a
-  permutation; entries beyond the filtered array are ignored by the model, so a real argsort can
-  always be padded).
+* `OrdersCover` — the argsort of the acquisition values mentions every index of the array it
+  was computed on (it is a permutation).
 
 Each proposal carries the history variable `offered`: the candidate list it was selected from.
 -/
@@ -32,30 +34,30 @@ namespace DH.Ask
 
 variable {α τ : Type} [DecidableEq α]
 
-/-- **C08 (fresh proposals).**  For every history of `ask(n)` / `tell(results)` rounds, every
-environment and every C08 strategy: if the `i`-th proposal equals an earlier proposal (of an
+/-- **C08 (fresh proposals).**  For every sequence of `ask(n)` / `tell(results)` calls (in any
+order — in particular several asks without a tell in between), every environment and every C08 strategy: if the `i`-th proposal equals an earlier proposal (of an
 earlier batch or of the same batch), then *every* candidate of the list it was selected from had
 already been proposed — the space was exhausted as far as candidate sampling could tell. -/
 theorem C08_fresh (ops : Ops α τ) (nInit : Int) (dummy ign : Bool) (strat : Strategy)
-    (hst : strat.c08) (rounds : List (Round α τ))
-    (henv : ∀ r ∈ rounds, RoundRT (fun _ => True) ops r)
+    (hst : strat.c08) (calls : List (Op α τ))
+    (henv : ∀ o ∈ calls, OpRT (fun _ => True) ops o)
     (c : Cbo α) (Z : List (Sel α))
-    (hrun : run ops (Cbo.start nInit dummy strat ign) rounds = .ok (c, Z))
+    (hrun : runOps ops (Cbo.start nInit dummy strat ign) calls = .ok (c, Z))
     (i : Nat) (hi : i < Z.length) (hdup : Z[i].x ∈ (Z.take i).map (·.x)) :
     ∀ cand ∈ Z[i].offered, cand ∈ (Z.take i).map (·.x) := by
-  have h := (run_fresh (start_bnd _ nInit dummy strat ign hst) henv hrun).1
+  have h := (runOps_fresh (start_bnd _ nInit dummy strat ign hst) henv hrun).1
   have := (selsOK_index h i hi).2
   simpa using this (by simpa using hdup)
 
 /-- **C08 (recording).**  Every configuration handed out is in `Optimizer.sampled` afterwards,
 and `sampled` contains nothing else: the duplicate filter sees exactly the proposals. -/
 theorem C08_recorded (ops : Ops α τ) (nInit : Int) (dummy ign : Bool) (strat : Strategy)
-    (hst : strat.c08) (rounds : List (Round α τ))
-    (henv : ∀ r ∈ rounds, RoundRT (fun _ => True) ops r)
+    (hst : strat.c08) (calls : List (Op α τ))
+    (henv : ∀ o ∈ calls, OpRT (fun _ => True) ops o)
     (c : Cbo α) (Z : List (Sel α))
-    (hrun : run ops (Cbo.start nInit dummy strat ign) rounds = .ok (c, Z)) :
+    (hrun : runOps ops (Cbo.start nInit dummy strat ign) calls = .ok (c, Z)) :
     ∀ x, x ∈ c.opt.sampled ↔ x ∈ Z.map (·.x) := by
-  have h := (run_fresh (start_bnd _ nInit dummy strat ign hst) henv hrun).2
+  have h := (runOps_fresh (start_bnd _ nInit dummy strat ign hst) henv hrun).2
   intro x
   simpa using h.good.smp x
 
@@ -63,12 +65,12 @@ theorem C08_recorded (ops : Ops α τ) (nInit : Int) (dummy ign : Bool) (strat :
 candidate lists always cover the space, the first `N` proposals are pairwise distinct. -/
 theorem C08_finite (ops : Ops α τ) (univ : List α) (hnd : univ.Nodup)
     (nInit : Int) (dummy ign : Bool) (strat : Strategy) (hst : strat.c08)
-    (rounds : List (Round α τ))
-    (henv : ∀ r ∈ rounds, RoundRT (fun l => ∀ u ∈ univ, u ∈ l) ops r)
+    (calls : List (Op α τ))
+    (henv : ∀ o ∈ calls, OpRT (fun l => ∀ u ∈ univ, u ∈ l) ops o)
     (c : Cbo α) (Z : List (Sel α))
-    (hrun : run ops (Cbo.start nInit dummy strat ign) rounds = .ok (c, Z)) :
+    (hrun : runOps ops (Cbo.start nInit dummy strat ign) calls = .ok (c, Z)) :
     ((Z.take univ.length).map (·.x)).Nodup := by
-  have h := (run_fresh (start_bnd _ nInit dummy strat ign hst) henv hrun).1
+  have h := (runOps_fresh (start_bnd _ nInit dummy strat ign hst) henv hrun).1
   apply nodup_of_not_mem_take
   intro i hi hmem
   simp only [List.length_map, List.length_take] at hi
@@ -103,25 +105,30 @@ section witnesses
 
 def ops3 : Ops Nat Nat := { tr := id, fin := some, accept := fun _ => true }
 
-def fit3 (i : Nat) : Fit Nat Nat := { cands := [0, 1, 2, 1], pick := .idx i }
+def fit3 (i : Nat) : Fit Nat Nat := { cands := [0, 1, 2, 1], pick := .idx (fun _ => i) }
 
 def env3 (orders : List (List Nat)) : AskEnv Nat Nat :=
   { cands := [2, 0, 1, 0], copyFit := fit3 0,
-    steps := [⟨[0, 1, 2], fit3 0⟩, ⟨[0, 1, 2], fit3 0⟩, ⟨[0, 1, 2], fit3 0⟩], orders }
+    steps := [⟨[0, 1, 2], fit3 0⟩, ⟨[0, 1, 2], fit3 0⟩, ⟨[0, 1, 2], fit3 0⟩],
+    orders := fun _ => orders, refresh := fit3 0 }
 
 /-- the contracts are satisfiable -/
 example : RoundRT (fun l => ∀ u ∈ [0, 1, 2], u ∈ l) ops3
-    ⟨2, env3 [[1, 0, 2, 3]], [(2, .val), (0, .fail)], fit3 0⟩ := by
-  refine ⟨⟨by decide, ⟨fun _ _ => rfl, by decide⟩, ?_, ?_⟩, ⟨fun _ _ => rfl, by decide⟩⟩
+    ⟨2, env3 [], [(2, .val), (0, .fail)], fit3 0⟩ := by
+  refine ⟨⟨by decide, ⟨fun _ _ => rfl, by decide⟩, ?_, ?_, ⟨fun _ _ => rfl, by decide⟩⟩,
+    ⟨fun _ _ => rfl, by decide⟩⟩
   · intro st hst
     simp only [env3, List.mem_cons, List.not_mem_nil, or_false] at hst
     rcases hst with rfl | rfl | rfl <;> exact ⟨by decide, fun _ _ => rfl, by decide⟩
-  · intro o ho i hi
-    simp only [env3, List.mem_cons, List.not_mem_nil, or_false] at ho
-    subst ho
-    simp only [env3, List.length_cons, List.length_nil] at hi
-    have : i = 0 ∨ i = 1 ∨ i = 2 ∨ i = 3 := by omega
-    rcases this with rfl | rfl | rfl | rfl <;> decide
+  · intro l o ho
+    simp [env3] at ho
+
+/-- an argsort given as a function of the array it is computed on covers that array -/
+example : OrdersCover ({ env3 [] with orders := fun l => [List.range l.length] } : AskEnv Nat Nat) := by
+  intro l o ho i hi
+  simp only [List.mem_cons, List.not_mem_nil, or_false] at ho
+  subst ho
+  exact List.mem_range.2 hi
 
 def proposals (r : Except Err (Cbo Nat × List (Sel Nat))) : List Nat :=
   match r with
@@ -139,6 +146,13 @@ example : proposals (run ops3 (Cbo.start 1 false .qLCB false)
     [⟨1, env3 [], [(2, .val)], fit3 0⟩, ⟨2, env3 [[0, 1, 2, 3]], [], fit3 0⟩]) = [2, 0, 1] := by
   decide +kernel
 
+/-- asking twice before any tell (round 2): the second `ask(1)` first refreshes `_next_x`
+(`update_next`), so three asks in a row give the three points of the space -/
+example : proposals (runOps ops3 (Cbo.start 1 false .clMin false)
+    [.ask 1 (env3 []), .tell [(2, .val)] (fit3 0), .ask 1 (env3 []), .ask 1 (env3 []), .ask 2 (env3 [])]) =
+    [2, 0, 1, 0, 0] := by
+  decide +kernel
+
 /-- DESIGN §6-8a on the pinned tree: the qLCB branch took the plain argmin for every kappa and
 recorded nothing — `next_x = 0` is drawn again (`[0, 0, 0]` from candidates `[2,0,1,0]` filtered
 against `sampled = [2]`, argmin index 0 twice). -/
@@ -148,7 +162,7 @@ example : (askQPre (α := Nat) { (Opt.init true false 0 [] : Opt Nat) with sampl
 
 /-- the same call after the fix -/
 example : (askQ (α := Nat) { (Opt.init true false 0 [] : Opt Nat) with sampled := [2], nextX := some 0 }
-    3 0 [2, 0, 1, 0] [[0, 1], [0, 1]]).toOption.map (fun p => p.2.map (·.x)) = some [0, 1, 1] := by
+    3 0 [2, 0, 1, 0] (fun _ => [[0, 1], [0, 1]])).toOption.map (fun p => p.2.map (·.x)) = some [0, 1, 1] := by
   decide +kernel
 
 /-- DESIGN §6-8b on the pinned tree: with `filter_failures="ignore"` a failed result leaves the
